@@ -1769,6 +1769,21 @@ typename olc_db<Key, Value>::try_get_result_type olc_db<Key, Value>::try_get(
     const auto shared_key_prefix_length{
         key_prefix.get_shared_length(remaining_key.get_u64())};
 
+    if constexpr (std::is_same_v<Key, key_view>) {
+      // No key of the index is a prefix of another one, so a variable length
+      // key cannot run out of bytes at an inner node (the zero padding of
+      // get_u64() does not count as a match). If it seems to, then most likely
+      // the prefix was read while the node was being moved to another depth:
+      // restart instead of indexing the key past its end. Otherwise the key
+      // is a proper prefix of stored keys and is not in the index.
+      if (UNODB_DETAIL_UNLIKELY(remaining_key.size() <=
+                                shared_key_prefix_length)) {
+        if (UNODB_DETAIL_UNLIKELY(!node_critical_section.try_read_unlock()))
+          return {};
+        return std::make_optional<get_result>(std::nullopt);
+      }
+    }
+
     if (shared_key_prefix_length < key_prefix_length) {
       if (UNODB_DETAIL_UNLIKELY(!node_critical_section.try_read_unlock()))
         return {};  // LCOV_EXCL_LINE
@@ -1905,6 +1920,22 @@ olc_db<Key, Value>::try_insert(art_key_type k, value_type v,
     const auto key_prefix_length{key_prefix.length()};
     const auto shared_prefix_length{
         key_prefix.get_shared_length(remaining_key.get_u64())};
+
+    if constexpr (std::is_same_v<Key, key_view>) {
+      // A variable length key cannot run out of bytes at an inner node (see
+      // try_get): restart instead of indexing the key past its end, unless
+      // the read was consistent, in which case the key is a proper prefix of
+      // stored keys, which the index cannot hold: refuse it.
+      if (UNODB_DETAIL_UNLIKELY(remaining_key.size() <= shared_prefix_length)) {
+        if (UNODB_DETAIL_UNLIKELY(!parent_critical_section.try_read_unlock()))
+          return {};
+        if (UNODB_DETAIL_UNLIKELY(!node_critical_section.try_read_unlock()))
+          return {};
+
+        if (UNODB_DETAIL_UNLIKELY(cached_leaf != nullptr)) cached_leaf.reset();
+        return false;
+      }
+    }
 
     if (shared_prefix_length < key_prefix_length) {
       create_leaf_if_needed(cached_leaf, k, v, *this);
@@ -2045,6 +2076,21 @@ olc_db<Key, Value>::try_remove(art_key_type k) {
     const auto key_prefix_length{key_prefix.length()};
     const auto shared_prefix_length{
         key_prefix.get_shared_length(remaining_key.get_u64())};
+
+    if constexpr (std::is_same_v<Key, key_view>) {
+      // A variable length key cannot run out of bytes at an inner node (see
+      // try_get): restart instead of indexing the key past its end, unless
+      // the read was consistent, in which case the key is a proper prefix of
+      // stored keys and is not in the index.
+      if (UNODB_DETAIL_UNLIKELY(remaining_key.size() <= shared_prefix_length)) {
+        if (UNODB_DETAIL_UNLIKELY(!parent_critical_section.try_read_unlock()))
+          return {};
+        if (UNODB_DETAIL_UNLIKELY(!node_critical_section.try_read_unlock()))
+          return {};
+
+        return false;
+      }
+    }
 
     if (shared_prefix_length < key_prefix_length) {
       if (UNODB_DETAIL_UNLIKELY(!parent_critical_section.try_read_unlock()))
